@@ -13,15 +13,15 @@ import (
 // panics with "slice bounds out of range" instead of returning an error.
 
 var consumeLenResult = map[string]int{
-	"encoding/protowire.ConsumeVarint":     1,
-	"encoding/protowire.ConsumeFixed32":    1,
-	"encoding/protowire.ConsumeFixed64":    1,
-	"encoding/protowire.ConsumeBytes":      1,
-	"encoding/protowire.ConsumeString":     1,
-	"encoding/protowire.ConsumeGroup":      1,
-	"encoding/protowire.ConsumeTag":        2,
-	"encoding/protowire.ConsumeField":      2,
-	"encoding/protowire.ConsumeFieldValue": 0,
+	"encoding/protowire.ConsumeVarint":      1,
+	"encoding/protowire.ConsumeFixed32":     1,
+	"encoding/protowire.ConsumeFixed64":     1,
+	"encoding/protowire.ConsumeBytes":       1,
+	"encoding/protowire.ConsumeString":      1,
+	"encoding/protowire.ConsumeGroup":       1,
+	"encoding/protowire.ConsumeTag":         2,
+	"encoding/protowire.ConsumeField":       2,
+	"encoding/protowire.ConsumeFieldValue":  0,
 	"encoding/protowire.consumeFieldValueD": 0,
 }
 
